@@ -235,7 +235,13 @@ FNum == {[Base("num") EXCEPT !.pk = p, !.ts = t, !.kind = k, !.tags = << << <<11
 Rep(n, c) == [i \in 1..n |-> c]
 FLong == {[Base("long") EXCEPT !.content = Rep(n, c), !.tags = << <<Rep(7, c), Rep(n, c)>> >>] : n \in {7, 70}, c \in TA}
 
-Events == FContent \cup FTagStr \cup FShape \cup FNested \cup FNum \cup FLong
+\* a multi-byte character (2, 3, 4 bytes) or an escaped one straddling a power-of-two byte offset of long content
+\* (chunked / buffered canonicalisation must not depend on where a character falls)
+Bounds == IF TamperWide THEN {64, 256, 1024, 4096, 8192} ELSE {4096}
+BChars == IF TamperWide THEN {233, 8364, 65536, 10} ELSE {233, 65536}
+FBound == {[Base("long") EXCEPT !.content = Rep(b - k, 97) \o <<c>> \o Rep(3, 98)] : b \in Bounds, k \in 1..3, c \in BChars}
+
+Events == FContent \cup FTagStr \cup FShape \cup FNested \cup FNum \cup FLong \cup FBound
 
 (* ----------------------------------- tampering -------------------------------- *)
 RemoveAt(s, i)     == SubSeq(s, 1, i - 1) \o SubSeq(s, i + 1, Len(s))
